@@ -39,9 +39,10 @@ class W11(World):
     """World of harness/gen/exprs.py plus: a sibling user type T2 < T0 (so that Equals between incompatible user types is
     well-formed), two free variables, an action that makes some fluents non-static, initial values for some static ones."""
 
-    def __init__(self, rng):
+    def __init__(self, rng, all_dynamic=False):
         super().__init__(rng)
         from unified_planning.model import Fluent, Object, InstantaneousAction, Variable
+        self.all_dynamic = all_dynamic
         tm = self.env.type_manager
         self.T2 = tm.UserType("T2", self.T0)
         self.objs[self.T2] = [Object("d0", self.T2, self.env)]
@@ -59,13 +60,17 @@ class W11(World):
         self.free_vars = [Variable("fv0", self.T0, self.env), Variable("fv1", self.T1, self.env),
                           Variable("fv2", self.T2, self.env)]
         # non-static fluents: those with an effect in some action
-        act = InstantaneousAction("touch", _env=self.env)
+        # all_dynamic: EVERY fluent (also b4 over the object-less type, through an action parameter) has an effect, so the
+        # problem has no static fluent at all — Simplifier(env, problem) must still use the problem (its objects)
+        act = InstantaneousAction("touch", _env=self.env, x3=self.T3)
         self.dynamic = set()
         for f in self.fluents:
-            if rng.random() < 0.4:
+            if all_dynamic or rng.random() < 0.4:
                 self.dynamic.add(f)
                 args = [rng.choice(self.objects_of(p.type)) for p in f.signature]
                 act.add_effect(f(*args), self.rand_value_of_type(f.type))
+        if all_dynamic:
+            act.add_effect(f4(act.parameter("x3")), True)
         self.problem.add_action(act)
         # initial values (explicit) for ~70% of the ground fluents
         self.init = {}
@@ -269,7 +274,7 @@ def targeted(w, rng):
             body = em.Or(body, boo())
         return rng.choice([em.Exists, em.Forall])(body, *vs)
     if kind == 12:  # quantifiers over the object-less type T3 (vacuous: Forall true, Exists false)
-        return empty_type_shape(w, rng, rng.randrange(7))
+        return empty_type_shape(w, rng, rng.randrange(10))
     # comparisons of constants of any magnitude
     a, b = const(), const()
     return rng.choice([lambda: em.LE(a, b), lambda: em.LT(a, b), lambda: em.Equals(a, b), lambda: em.Equals(a, a),
@@ -299,8 +304,23 @@ def empty_type_shape(w, rng, k):
         return em.And(b, em.Forall(em.Bool(False), v))
     if k == 5:
         return em.Not(em.Exists(em.Or(b, em.Bool(True)), v))
-    x = w.fresh_var(w.T3)
-    return Q(em.And(F["b4"](ve), em.Equals(ve, x)), v, x)          # elimination between two variables of the empty type
+    if k == 6:
+        x = w.fresh_var(w.T3)
+        return Q(em.And(F["b4"](ve), em.Equals(ve, x)), v, x)      # elimination between two variables of the empty type
+    # equality elimination whose body holds a quantifier over the empty type with an unused variable: the node rebuilt
+    # after the substitution is simplified again by the nested simplifier, which must know the problem's objects too
+    t = rng.choice(w.all_types())
+    u = w.fresh_var(t)
+    ue = em.VariableExp(u)
+    val = rng.choice([em.ObjectExp(rng.choice(w.objects_of(t)))] + [em.VariableExp(x) for x in w.free_vars if x.type == t])
+    eq = em.Equals(ue, val) if rng.random() < 0.5 else em.Equals(val, ue)
+    inner_body = rng.choice([F["b1"](ue), em.Not(F["b1"](ue)), em.Or(F["b1"](ue), b), em.LE(F["i1"](ue), F["i0"]())])
+    inner = rng.choice([em.Exists, em.Forall])(inner_body, v)
+    if k == 8:
+        inner = em.Not(inner)
+    conj = [eq, inner] + ([F["b1"](ue)] if k == 9 else [])
+    rng.shuffle(conj)
+    return em.Exists(em.And(conj), u)
 
 
 def empty_unused_tags(e, w):
@@ -487,7 +507,7 @@ def run(ctx):
     for b0 in range(0, n_worlds, batch):
         cases, raw, worlds, all_pre = [], [], {}, []
         for wi in range(b0, min(n_worlds, b0 + batch)):
-            w = W11(rng)
+            w = W11(rng, all_dynamic=(wi % 3 == 1))   # every third world: a problem without any static fluent
             em = w.em
             names = Names()
             for t in w.all_types():
@@ -504,6 +524,8 @@ def run(ctx):
             for v in w.free_vars:
                 names.var(v)
             S = Simplifier(w.env, w.problem)
+            stats["worlds_without_static_fluents"] = stats.get("worlds_without_static_fluents", 0) + int(not w.static)
+            assert w.all_dynamic == (not w.static)
             objs_tab = {t: w.objects_of(t) for t in w.all_types() + [w.T3]}
             # interpretations (shared by all the cases of this world); fluent domains here are too big to enumerate, so
             # sampled: random total, corner, and partial (some fluents undefined)
@@ -538,10 +560,17 @@ def run(ctx):
 
             first = len(cases)
             corpus = []
-            if wi == 0:  # fixed corpus: the unused quantifier over the object-less type, both quantifiers
+            if wi in (0, 1):  # fixed corpus (world 0: with static fluents, world 1: without any): the unused quantifier over
+                # the object-less type, alone and inside the body of an equality elimination
                 b0 = [f for f in w.fluents if f.name == "b0"][0]
+                b1f = [f for f in w.fluents if f.name == "b1"][0]
                 cv = w.fresh_var(w.T3)
-                corpus = [em.Forall(b0(), cv), em.Exists(em.Not(b0()), cv), em.Forall(em.Bool(False), cv), em.Exists(em.Bool(True), cv)]
+                cu = w.fresh_var(w.T0)
+                a0 = em.ObjectExp(w.objs[w.T0][0])
+                corpus = [em.Forall(b0(), cv), em.Exists(em.Not(b0()), cv), em.Forall(em.Bool(False), cv), em.Exists(em.Bool(True), cv),
+                          em.Exists(em.And(em.Equals(cu, a0), em.Forall(b1f(cu), cv)), cu),
+                          em.Exists(em.And(em.Not(em.Exists(b1f(cu), cv)), em.Equals(a0, cu)), cu),
+                          em.Exists(em.And(em.Equals(cu, a0), b1f(cu), em.Forall(em.Bool(False), cv)), cu)]
             for k in range(per_world + len(corpus)):
                 r = rng.random()
                 try:
